@@ -1,6 +1,9 @@
 open Model
 open Proto
 
+let tensor_out_z (t : int tensor) = [ZL (ints t.shape); ZL t.data]
+let tensor_out_f (t : float tensor) = [ZL (ints t.shape); FL t.data]
+
 let dispatch (cmd : string) (args : arg list) : arg list =
   match cmd, args with
   | "tc", [Zs which; PV p] ->
